@@ -118,6 +118,7 @@ type cand struct {
 	tx    *types.Transaction
 	class string
 	valid bool
+	grp   int // members of one transaction group carry the same non-zero id and stay consecutive
 }
 
 func freshTo() string { a, _ := util.Genaddress(); return a }
@@ -292,11 +293,19 @@ func runC28History(seed uint64, dir string) (*c28Res, error) {
 	}
 	produce := func(step string, cands []cand) {
 		st := &c28Step{}
-		// shuffle candidate order
-		p := r.Perm(len(cands))
-		sh := make([]cand, len(cands))
-		for i, j := range p {
-			sh[i] = cands[j]
+		// shuffle candidate order (a transaction group moves as one unit)
+		var units [][]cand
+		for i := 0; i < len(cands); {
+			j := i + 1
+			for cands[i].grp != 0 && j < len(cands) && cands[j].grp == cands[i].grp {
+				j++
+			}
+			units = append(units, cands[i:j])
+			i = j
+		}
+		var sh []cand
+		for _, j := range r.Perm(len(units)) {
+			sh = append(sh, units[j]...)
 		}
 		b, err := selfProduce(n, sh, classOf, r)
 		if err != nil {
@@ -324,23 +333,49 @@ func runC28History(seed uint64, dir string) (*c28Res, error) {
 		t.Sign(types.SECP256K1, gk)
 		return t
 	}
+	gid := 0
+	mkGroup := func(expires []int64) []*types.Transaction {
+		var raw []*types.Transaction
+		for _, e := range expires {
+			t := util.CreateCoinsTx(cfg, nil, freshTo(), 1e6)
+			t.Expire = e
+			raw = append(raw, t)
+		}
+		g, err := types.CreateTxGroup(raw, cfg.GetMinTxFeeRate())
+		if err != nil {
+			panic(err)
+		}
+		for i := range g.Txs {
+			g.SignN(i, types.SECP256K1, gk)
+		}
+		return g.GetTxs()
+	}
 	genCands := func(h int64, bt int64, replayOnChain []*types.Transaction, validAgain []*types.Transaction) []cand {
 		d := mk(gk, 2e6)
 		cs := []cand{
-			{mk(gk, 1e6), "V-fresh", true}, {mk(keys[0], 1e6), "V-fresh", true},
-			{d, "V-dup-in-list-first", true}, {types.Clone(d).(*types.Transaction), "B-dup-in-list", false},
-			{wrongChain(), "B-chainid", false}, {lowFee(), "B-lowfee", false},
-			{withExpire(h), "B-expire-height-eq", false}, {withExpire(h - 1), "B-expire-height-past", false}, {withExpire(h + 1), "V-expire-height-next", true},
-			{withExpire(bt), "B-expire-time-eq", false}, {withExpire(bt - 100), "B-expire-time-past", false}, {withExpire(bt + 100), "V-expire-time-future", true},
-			{mkTH(h - packHigh), "V-txheight-low-edge", true}, {mkTH(h - packHigh - 1), "B-txheight-below-window", false},
-			{mkTH(h + packLow), "V-txheight-high-edge", true}, {mkTH(h + packLow + 1), "B-txheight-above-window", false},
-			{mkTH(h), "V-txheight-now", true},
+			{mk(gk, 1e6), "V-fresh", true, 0}, {mk(keys[0], 1e6), "V-fresh", true, 0},
+			{d, "V-dup-in-list-first", true, 0}, {types.Clone(d).(*types.Transaction), "B-dup-in-list", false, 0},
+			{wrongChain(), "B-chainid", false, 0}, {lowFee(), "B-lowfee", false, 0},
+			{withExpire(h), "B-expire-height-eq", false, 0}, {withExpire(h - 1), "B-expire-height-past", false, 0}, {withExpire(h + 1), "V-expire-height-next", true, 0},
+			{withExpire(bt), "B-expire-time-eq", false, 0}, {withExpire(bt - 100), "B-expire-time-past", false, 0}, {withExpire(bt + 100), "V-expire-time-future", true, 0},
+			{mkTH(h - packHigh), "V-txheight-low-edge", true, 0}, {mkTH(h - packHigh - 1), "B-txheight-below-window", false, 0},
+			{mkTH(h + packLow), "V-txheight-high-edge", true, 0}, {mkTH(h + packLow + 1), "B-txheight-above-window", false, 0},
+			{mkTH(h), "V-txheight-now", true, 0},
+		}
+		// transaction groups: every member must be unexpired, not only the head
+		gid++
+		for _, t := range mkGroup([]int64{0, h + 2, bt + 100}) {
+			cs = append(cs, cand{t, "V-group", true, gid})
+		}
+		gid++
+		for _, t := range mkGroup(lib.Pick(r, [][]int64{{0, h - 1}, {h + 2, 0, h}, {0, bt - 100, 0}, {bt + 100, bt}})) {
+			cs = append(cs, cand{t, "B-group-member-expired", false, gid})
 		}
 		for _, t := range replayOnChain {
-			cs = append(cs, cand{t, "B-replay-onchain", false})
+			cs = append(cs, cand{t, "B-replay-onchain", false, 0})
 		}
 		for _, t := range validAgain {
-			cs = append(cs, cand{t, "V-losing-branch-only", true})
+			cs = append(cs, cand{t, "V-losing-branch-only", true, 0})
 		}
 		return cs
 	}
